@@ -101,7 +101,28 @@ def design_runs(ctx, family):
         if exp not in r["violated"]:
             raise verif.MachineryError("negative twin %s was not refuted (expected %s, got %s)" % (c, exp, r["violated"]))
         out.append({"cfg": c, "states": r["states"], "transitions": r["transitions"], "result": "refuted: " + exp})
+    if ctx.thorough():
+        out.append(protocol_proof(ctx))
     return out
+
+
+def protocol_proof(ctx):
+    """TLAPS proof (spec/RepoProtocol.tla) that the ordering rules checked on recorded steps preserve
+    SnapshotIndexed and IndexSound for repositories of any size.  Independent of /repo."""
+    import shutil, subprocess
+    d = os.path.join(ctx.work, "tlaps")
+    os.makedirs(d, exist_ok=True)
+    shutil.copy(os.path.join(verif.SPEC, "RepoProtocol.tla"), d)
+    try:
+        pr = subprocess.run(["tlapm", "--threads", "8", "--cleanfp", "RepoProtocol.tla"], cwd=d, stdout=subprocess.PIPE,
+                            stderr=subprocess.STDOUT, text=True, timeout=1500)
+    except subprocess.TimeoutExpired:
+        raise verif.MachineryError("tlapm timed out on RepoProtocol.tla")
+    m = re.search(r"All (\d+) obligations? proved", pr.stdout)
+    if not m:
+        raise verif.MachineryError("TLAPS proof of RepoProtocol.tla did not go through:\n" + pr.stdout[-1500:])
+    return {"cfg": "RepoProtocol.tla (TLAPS)", "obligations": int(m.group(1)), "discharged": int(m.group(1)),
+            "result": "Spec => []Inv proved (ordering rules imply SnapshotIndexed and IndexSound, unbounded)"}
 
 
 def finish_trace(ctx, out, level, invs=None, rules=None, key_prefix=None, extra_cov=None, assumptions=None):
